@@ -246,14 +246,10 @@ func runC01(c *core.Ctx) {
 			nRet := 0
 			okAll := true
 			why := ""
-			core.Instrs(f, func(ins ssa.Instruction) {
-				r, isR := ins.(*ssa.Return)
-				if !isR {
-					return
-				}
+			for _, rcase := range core.ReturnCases(f) {
 				nRet++
 				isPtr, known := false, false
-				for _, m := range core.EdgeCmps(r.Block()) {
+				for _, m := range rcase.Cmps() {
 					// Kind(obj) == reflect.Ptr (22)
 					call, isC := core.Resolve(m.X).(*ssa.Call)
 					if !isC || !core.IsIntConst(m.Y, int64(22)) {
@@ -270,9 +266,9 @@ func runC01(c *core.Ctx) {
 				}
 				if !known {
 					okAll, why = false, "a result is not decided by the test Kind(obj) == reflect.Ptr (other nillable kinds must not count as absent)"
-					return
+					continue
 				}
-				v := core.Resolve(core.RetVals(r)[0])
+				v := core.Resolve(rcase.Vals[0])
 				valueOfObj := func(x ssa.Value) bool {
 					call, isC := core.Resolve(x).(*ssa.Call)
 					return isC && core.StdCallee(&call.Call) == "reflect.ValueOf" && core.Unwrap(call.Call.Args[0]) == ssa.Value(f.Params[0])
@@ -286,14 +282,14 @@ func runC01(c *core.Ctx) {
 					not, isNot := v.(*ssa.UnOp)
 					if !isNot || not.Op != token.NOT {
 						okAll, why = false, "for non-pointers the result is not !reflect.ValueOf(obj).IsValid()"
-						return
+						continue
 					}
 					call, isC := core.Resolve(not.X).(*ssa.Call)
 					if !isC || core.StdCallee(&call.Call) != "reflect.(Value).IsValid" || !valueOfObj(call.Call.Args[0]) {
 						okAll, why = false, "for non-pointers the result is not !reflect.ValueOf(obj).IsValid()"
 					}
 				}
-			})
+			}
 			if nRet != 2 {
 				return false, fmt.Sprintf("IsNil has %d results, expected the pointer case and the general case (a switch over more kinds makes nil slices/maps/chans/funcs absent)", nRet)
 			}
